@@ -389,6 +389,8 @@ class TEBDWorld(World):
                     h2[(a, b)] = G.copy()
         else:
             D = self._rand_op(rng, 4)
+            if form == "default" and kn["h1_form"] == "none":
+                self.raw_h2 = D.copy()  # what a caller may hand to TEBD directly
             arg2 = {None: D} if form == "default+override" else D
             for a, b in bonds:
                 h2[(a, b)] = D.copy()
@@ -494,7 +496,10 @@ class TEBDWorld(World):
     def _gen_new(self, r):
         return {"k": "new_tebd", "imag": r.random() < 0.3, "t0": pick(r, [0.0, 0.0, 0.37, -0.2]),
                 "bond": r.choice([1, 2, 3]), "psi_seed": r.randrange(2**31),
-                "default": pick(r, ["dt", "dt", "tol", "none"]), "dt": pick(r, [0.05, 0.1, 0.2])}
+                "default": pick(r, ["dt", "dt", "tol", "none"]), "dt": pick(r, [0.05, 0.1, 0.2]),
+                # hand TEBD the bare two-site array (it wraps it itself) when
+                # the Hamiltonian is one uniform term
+                "raw_h": r.random() < 0.5}
 
     # ------------------------------------------------------------- execution
     def apply(self, op):
@@ -639,14 +644,26 @@ class TEBDWorld(World):
         elif op["default"] == "tol":
             kw["tol"] = 1e-3
         cutoff = 1e-13 if self.cyclic else 0.0
-        st, tebd = self.call(lambda: qtn.TEBD(psi0, self.ham, t0=op["t0"], imag=op["imag"],
+        private = None
+        hamarg = self.ham
+        if op.get("raw_h") and getattr(self, "raw_h2", None) is not None:
+            import copy as _copy
+
+            hamarg = self.raw_h2.copy()
+            private = _copy.copy(self.model)
+            private.scale = 1.0  # its own terms: later apply_to_arrays on the shared object do not reach it
+            self.stats.probe("tebd_from_raw_two_site_array")
+        st, tebd = self.call(lambda: qtn.TEBD(psi0, hamarg, t0=op["t0"], imag=op["imag"],
                                               progbar=bool(self.knobs.get("progbar")),
                                               split_opts={"cutoff": cutoff}, **kw))
         if st == "rejected":
             raise Violation("C11/rejected_valid_input", repr(tebd))
         self.tebds.append({"obj": tebd, "psi": dense0 / np.linalg.norm(dense0), "t": op["t0"], "err": 0.0,
                            "imag": op["imag"], "gen": None, "default": op["default"], "dt": op["dt"],
-                           "ham_norm": self.model.mean_norm(), "scale0": self.model.scale})
+                           "ham_norm": (private or self.model).mean_norm(), "scale0": self.model.scale,
+                           "model": private})
+        if private is not None:
+            self.tebds[-1]["scale0"] = None  # never equal to the shared scale: see choose_time_step
         self._check_state(self.tebds[-1], "construction")
 
     def _T(self, op):
@@ -671,7 +688,7 @@ class TEBDWorld(World):
         psi = T["psi"]
         n = 0
         while t < target - dt:
-            psi = model_step(psi, self.model, order, dt, T["imag"])
+            psi = model_step(psi, T.get("model") or self.model, order, dt, T["imag"])
             if T["imag"]:
                 psi = psi / np.linalg.norm(psi)
             t += dt
@@ -680,7 +697,7 @@ class TEBDWorld(World):
             if n > 200:
                 raise HarnessError("model: too many steps")
         dtf = target - t
-        psi = model_step(psi, self.model, order, dtf, T["imag"])
+        psi = model_step(psi, T.get("model") or self.model, order, dtf, T["imag"])
         if T["imag"]:
             psi = psi / np.linalg.norm(psi)
         T["err"] += T["ham_norm"] * dtf ** (order + 1)
@@ -776,7 +793,7 @@ class TEBDWorld(World):
         st, res = self.call(lambda: tebd.step(order=op["order"], dt=dt))
         if st == "rejected":
             raise Skip()
-        psi = model_step(T["psi"], self.model, op["order"], dt_eff, T["imag"])
+        psi = model_step(T["psi"], T.get("model") or self.model, op["order"], dt_eff, T["imag"])
         if T["imag"]:
             psi = psi / np.linalg.norm(psi)
         T["psi"] = psi
